@@ -10,8 +10,10 @@ What is covered, exactly:
   messages, deliver the registered will when the node's connection breaks, break and restore
   either connection, with the clock advancing arbitrarily in between (`Sys.step`, 15 actions).
   The node is the SEQUENTIAL abstraction `Loop.Node` (client accepts every call, every action runs
-  to quiescence); its tie to the task-level model `Model/Eon` / the real edge node is by
-  differential execution (driver `nodeabs`), not by a theorem here. Both rebirth cooldowns are 0;
+  to quiescence); it is tied to the real edge node by differential execution (driver `nodeabs`)
+  and to the task-level model `Model/Eon` by the refinement theorems of `Props/C08Refine.lean`
+  (every `Loop.Node` operation is realised by an LTS execution between quiescent states with the
+  same hand-overs). Both rebirth cooldowns are 0;
   every store accepts every message (`Ans.ok`).
 * `C08_safety` (full, every action sequence): the second sentence of the property.
 * `C08_convergence_partial` / `C08_convergence_reachable_partial`: the first sentence for the
